@@ -177,6 +177,7 @@ func (store *BaseStore[E]) createCompositeEntitySymbol(name string, first linked
 		symbolType: rest.GetType(),
 		chain:      iterable,
 		cursor:     nil,
+		tail:       last,
 		// the stacked cursor's key still carries the type byte; last.Eval expects the row id
 		cursorLastF: func(tx *bbolt.Tx, key []byte) (FieldType, []byte) {
 			_, rowKey := GetTypeAndValue(key)
